@@ -114,6 +114,10 @@ struct tree {
 
 #define ROW_WIDTH 16u
 #define SLIDE_LENGTH 8192u
+#if defined(KJN_LBZIP2_VERIF) && defined(VERIF_SLIDE_LENGTH)
+# undef SLIDE_LENGTH
+# define SLIDE_LENGTH VERIF_SLIDE_LENGTH
+#endif
 #define NUM_ROWS (256u / ROW_WIDTH)
 #define CMAP_BASE (SLIDE_LENGTH - 256)
 
